@@ -33,6 +33,89 @@ def enclosing(repo, module, node):
     return best
 
 
+def copy_option_clause(ctx, res, ce, prop, cid, outputs=True):
+    """with the copy option of the operation class on, every value recorded for an interception passed through the codec copy"""
+    roles = ctx.roles
+    ex = roles.executor
+    State.strip_deps = False
+    try:
+        class CopyDom(rm.RecDom):
+            def __init__(self, *a, **kw):
+                rm.RecDom.__init__(self, *a, **kw)
+                self.stores = []
+
+            def on_store(self, node, target, base, value, state):
+                if isinstance(target, ast.Subscript) and self.is_active_recording(base):
+                    self.stores.append((node, value, state))
+                return rm.RecDom.on_store(self, node, target, base, value, state)
+        # the copy option of the operation class is an atom of the analysis: the executor is interpreted under "copy is on" from its entry,
+        # so a store on a path that never asked for the option (or asked together with something else) still counts
+        copy_opt = 'copy_data_on_intercepion'       # the documented (misspelled) option of RecordingParameters: public API
+        dx = rm.run_method(ctx, ex, 'recording', cls=CopyDom, assume_attrs={copy_opt: True})
+    finally:
+        State.strip_deps = True
+    ce.evaluations += dx.visited_pairs
+    bad = None
+    n_copy = 0
+    copy_handlers = set()
+    for n in walk_own(ex.node):
+        if isinstance(n, ast.Try) and any(isinstance(x, ast.Call) and isinstance(x.func, ast.Name) and x.func.id == 'pickle_copy' for b in n.body for x in ast.walk(b)):
+            for h in n.handlers:
+                copy_handlers.add(h.lineno)
+    flag_attr = None
+    for n in ast.walk(ex.node):
+        if isinstance(n, ast.Attribute) and self_attr(n.value) == roles.params:
+            flag_attr = n.attr
+    if flag_attr is None:
+        raise AnalysisError('anchor-lost role=copy flag read in the executor')
+    for node, value, st in dx.stores:
+        deps = set(value.deps)
+        if any(str(d).startswith('exc-from:') for d in deps):
+            continue        # exception envelope
+        flag = [f[1] for k, f in st.facts.items() if isinstance(k, tuple) and k[0] == 'attr' and k[2] == flag_attr]
+        if not flag or not all(x is True for x in flag):
+            continue
+        n_copy += 1
+        # "copying failed" = the exception handled by the copy's handler came out of the copy primitive itself (not out of a check the
+        # executor makes on the copy afterwards)
+        failed = any(h in copy_handlers and 'pickle_copy' in src for h, src in st.extra.get('root_handler_sources', frozenset()))
+        copied = any('pickle_copy' in str(d) for d in deps)
+        if not copied and not failed:
+            bad = bad or (node, st)
+    ce.instance('executor: with the copy flag set the recorded input value passed through pickle_copy (%d store states)' % n_copy, ex.qualname,
+                bad is None and n_copy > 0)
+    if bad or not n_copy:
+        node, st = bad if bad else (None, None)
+        res.add(Finding(prop, cid, 'R-DOM', ex.file, ex.qualname, node.line if node else ex.node.lineno,
+                        'recorded input value with the copy flag set',
+                        'on some path the copy flag is set, copying did not fail, and the datum recorded for the intercepted input did not pass '
+                        'through pickle_copy: later mutation of the live object changes the recording',
+                        witness=dx.path_to(node, st) if node is not None and (node.id, st.key()) in dx.pred else None))
+    # the copy flag is read from the parameters installed when the scope was opened: nothing else replaces them
+    pw = [(m, n) for m in roles.cls.methods.values() if m not in (roles.init, roles.start, roles.reset) for n in ast.walk(m.node)
+          if isinstance(n, ast.Assign) and any(self_attr(t) == roles.params for t in n.targets)]
+    ce.instance('recording parameters (copy flag) are installed by the scope only, never replaced while it is open', roles.cls.name, not pw)
+    for m, n in pw:
+        res.add(Finding(prop, cid, 'R-DOM', m.file, m.qualname, n.lineno, norm(n)[:120],
+                        '%s replaces the parameters of the open recording: copy-on-interception configured for the operation class is silently dropped '
+                        'for the rest of that recording' % m.qualname))
+    if not outputs:
+        return
+    # output arguments
+    ro = roles.record_output
+    reads_flag = any(isinstance(n, ast.Attribute) and n.attr == flag_attr for n in ast.walk(ro.node))
+    copies = any(isinstance(n, ast.Call) and isinstance(n.func, ast.Name) and n.func.id == 'pickle_copy' for n in ast.walk(ro.node))
+    oko = reads_flag and copies
+    ce.instance('output recorder: recorded output arguments copied under the copy flag', ro.qualname, oko)
+    if not oko:
+        asg = [n for n in walk_own(ro.node) if isinstance(n, ast.Assign) and isinstance(n.value, ast.Dict)]
+        a = asg[0] if asg else None
+        res.add(Finding(prop, cid, 'R-DOM', ro.file, ro.qualname, a.lineno if a else ro.node.lineno,
+                        'output entry value ' + norm(a.value) if a else 'output entry value',
+                        'the arguments of an intercepted output are recorded uncopied although copy-on-interception is enabled: appending to a list '
+                        'after it was sent to the output changes what is recorded'))
+
+
 def run(ctx):
     res = Result('C11')
     repo = ctx.repo
@@ -177,83 +260,14 @@ def run(ctx):
                         'the replay reader takes an entry from the recording without the copying read: replayed code receives (and can mutate) the stored object'))
 
     # ---------------- C11.e
-    ex = roles.executor
-    State.strip_deps = False
-    try:
-        class CopyDom(rm.RecDom):
-            def __init__(self, *a, **kw):
-                rm.RecDom.__init__(self, *a, **kw)
-                self.stores = []
-
-            def on_store(self, node, target, base, value, state):
-                if isinstance(target, ast.Subscript) and self.is_active_recording(base):
-                    self.stores.append((node, value, state))
-                return rm.RecDom.on_store(self, node, target, base, value, state)
-        dx = rm.run_method(ctx, ex, 'recording', cls=CopyDom, track_attrs=('copy_data_on_intercepion',))
-    finally:
-        State.strip_deps = True
-    ce.evaluations += dx.visited_pairs
-    bad = None
-    n_copy = 0
-    copy_handlers = set()
-    for n in walk_own(ex.node):
-        if isinstance(n, ast.Try) and any(isinstance(x, ast.Call) and isinstance(x.func, ast.Name) and x.func.id == 'pickle_copy' for b in n.body for x in ast.walk(b)):
-            for h in n.handlers:
-                copy_handlers.add(h.lineno)
-    flag_attr = None
-    for n in ast.walk(ex.node):
-        if isinstance(n, ast.Attribute) and self_attr(n.value) == roles.params:
-            flag_attr = n.attr
-    if flag_attr is None:
-        raise AnalysisError('anchor-lost role=copy flag read in the executor')
-    for node, value, st in dx.stores:
-        deps = set(value.deps)
-        if any(str(d).startswith('exc-from:') for d in deps):
-            continue        # exception envelope
-        flag = [f[1] for k, f in st.facts.items() if isinstance(k, tuple) and k[0] == 'attr' and k[2] == flag_attr]
-        if not flag or not all(x is True for x in flag):
-            continue
-        n_copy += 1
-        # "copying failed" = the exception handled by the copy's handler came out of the copy primitive itself (not out of a check the
-        # executor makes on the copy afterwards)
-        failed = any(h in copy_handlers and 'pickle_copy' in src for h, src in st.extra.get('root_handler_sources', frozenset()))
-        copied = any('pickle_copy' in str(d) for d in deps)
-        if not copied and not failed:
-            bad = bad or (node, st)
-    ce.instance('executor: with the copy flag set the recorded input value passed through pickle_copy (%d store states)' % n_copy, ex.qualname,
-                bad is None and n_copy > 0)
-    if bad or not n_copy:
-        node, st = bad if bad else (None, None)
-        res.add(Finding('C11', 'C11.e', 'R-DOM', ex.file, ex.qualname, node.line if node else ex.node.lineno,
-                        'recorded input value with the copy flag set',
-                        'on some path the copy flag is set, copying did not fail, and the datum recorded for the intercepted input did not pass '
-                        'through pickle_copy: later mutation of the live object changes the recording',
-                        witness=dx.path_to(node, st) if node is not None and (node.id, st.key()) in dx.pred else None))
-    # the copy flag is read from the parameters installed when the scope was opened: nothing else replaces them
-    pw = [(m, n) for m in roles.cls.methods.values() if m not in (roles.init, roles.start, roles.reset) for n in ast.walk(m.node)
-          if isinstance(n, ast.Assign) and any(self_attr(t) == roles.params for t in n.targets)]
-    ce.instance('recording parameters (copy flag) are installed by the scope only, never replaced while it is open', roles.cls.name, not pw)
-    for m, n in pw:
-        res.add(Finding('C11', 'C11.e', 'R-DOM', m.file, m.qualname, n.lineno, norm(n)[:120],
-                        '%s replaces the parameters of the open recording: copy-on-interception configured for the operation class is silently dropped '
-                        'for the rest of that recording' % m.qualname))
-    # output arguments
-    ro = roles.record_output
-    reads_flag = any(isinstance(n, ast.Attribute) and n.attr == flag_attr for n in ast.walk(ro.node))
-    copies = any(isinstance(n, ast.Call) and isinstance(n.func, ast.Name) and n.func.id == 'pickle_copy' for n in ast.walk(ro.node))
-    oko = reads_flag and copies
-    ce.instance('output recorder: recorded output arguments copied under the copy flag', ro.qualname, oko)
-    if not oko:
-        asg = [n for n in walk_own(ro.node) if isinstance(n, ast.Assign) and isinstance(n.value, ast.Dict)]
-        a = asg[0] if asg else None
-        res.add(Finding('C11', 'C11.e', 'R-DOM', ro.file, ro.qualname, a.lineno if a else ro.node.lineno,
-                        'output entry value ' + norm(a.value) if a else 'output entry value',
-                        'the arguments of an intercepted output are recorded uncopied although copy-on-interception is enabled: appending to a list '
-                        'after it was sent to the output changes what is recorded'))
+    copy_option_clause(ctx, res, ce, 'C11', 'C11.e')
     # ---- C11.f nothing handed out during a replay is kept on the recorder and handed out again (shared with C09.e)
     from . import common as _ci
     _ci.import_clauses(ctx, res, 'C09', ['C09.e'], 'C11', 'C11.f', 'R-WHOCALLS',
                        'the recorder keeps no values between reads: outside the constructor it writes only the per-run fields', floor=4)
+    # ---- C11.g what a cassette hands out is decoded afresh from what it stores: no live object is kept and handed out (shared with C07)
+    _ci.import_clauses(ctx, res, 'C07', ['C07.c', 'C07.e'], 'C11', 'C11.g', 'R-PROV',
+                       'cassettes store encoded text / rebuild fetched recordings from decoded parts: fetched values share nothing with the store', floor=5)
     return res
 
 
